@@ -191,12 +191,20 @@ inline std::string go_command(Tape& t, Runner& r, bool& sendStop)
         std::vector<ref::Move> ms = ref::legal_moves(r.cur);
         if (!ms.empty())
         {
-            c += " searchmoves";
+            std::string sm = " searchmoves";
             bool all = t.chance(1, 3);
             for (auto& m : ms)
-                if (all || t.chance(1, 3)) c += " " + m.uci();
-            if (c.back() == 's') c += " " + ms[0].uci();
+                if (all || t.chance(1, 3)) sm += " " + m.uci();
+            if (sm.back() == 's') sm += " " + ms[0].uci();
             if (all && ms.size() >= 100) r.st.cls["c10:searchmoves_ge100"]++;
+            // UCI fixes no order for the parameters of `go`: the move list may be followed by the other limits
+            if (t.chance(1, 3) && c.size() > 2)
+            {
+                c = "go" + sm + c.substr(2);
+                r.st.cls["c10:searchmoves_before_other_limits"]++;
+            }
+            else
+                c += sm;
         }
     }
     return c;
@@ -217,7 +225,7 @@ inline std::string write_book(Tape& t, Runner& r)
         int to = m.to;
         if (ref::is_castle(r.cur, m)) to = ref::SQ(ref::FL(m.to) == 6 ? 7 : 0, ref::RK(m.to));
         uint16_t code = uint16_t((promo << 12) | (ref::RK(m.from) << 9) | (ref::FL(m.from) << 6) | (ref::RK(to) << 3) | ref::FL(to));
-        uint16_t w = uint16_t(1 + t.choose(5));
+        uint16_t w = uint16_t(t.choose(6));  // 0..5: a key may have a zero-weight record, or only zero-weight records
         char rec[16];
         for (int b = 0; b < 8; ++b) rec[b] = char((key >> (8 * (7 - b))) & 0xFF);
         rec[8] = char(code >> 8);
